@@ -228,6 +228,12 @@ def out_names_of(q):
         con.close()
 
 
+# statements a renderer object has seen before the judged one (derived tables the renderer cannot express, an unknown cast type,
+# DDL, an ordered and limited query)
+HISTORY_PRELUDE = ['SELECT * FROM (SELECT * FROM a.b.c.d.t1 ORDER BY x) AS s ORDER BY x', 'SELECT cast(a AS foo) FROM t1', 'CREATE TABLE n9 (a int)',
+                   'SELECT a FROM t1 WHERE a IN (SELECT b FROM x.y.z.w.t2) ORDER BY a LIMIT 1', 'SELECT t1.a FROM t1 RIGHT JOIN t2 ON t1.id = t2.id']
+
+
 def build(assign):
     """-> dict(sql, full_sql (no order/limit), spec, limit, offset, aliases, ncols) or None if the combination is not meaningful"""
     tl, tsel, tcols, taliases, tagg = TARGET_OPTS[assign['targets']]
@@ -448,13 +454,29 @@ class CHECK(Check):
         rendered = {}
         for t in TARGETS:
             try:
-                rendered[t] = self.renders[t].get_string(ast, with_failback=False)
+                rendered[t] = SqlalchemyRender(t).get_string(ast, with_failback=False)
             except (SQLAlchemyError, NotImplementedError):
                 if res:
                     res.count('unsupported_' + t)
             except Exception as e:
                 if res:
                     res.count('render_internal_error_(C17)')
+            # the same statement on a renderer object that has rendered other statements before (some of them unsupported, with the
+            # fallback on): judged like a target of its own whenever the text differs from the new renderer's
+            try:
+                r = SqlalchemyRender(t)
+                for pre in HISTORY_PRELUDE:
+                    try:
+                        r.get_string(parsing.outcome(pre, 'mindsdb').value, with_failback=True)
+                    except Exception:
+                        pass
+                text = r.get_string(ast, with_failback=False)
+                if t in rendered and text != rendered[t]:
+                    rendered[t + '@renderer-with-history'] = text
+                    if res:
+                        res.count('renderings_that_differ_after_a_history')
+            except Exception:
+                pass
         fails = []
         failed_targets = set()
         for con, db in self.db_iter():
@@ -474,7 +496,7 @@ class CHECK(Check):
                 if res:
                     res.count('executions')
                 if got[0] != 'rows':
-                    if t == 'sqlite':
+                    if t.split('@')[0] == 'sqlite':
                         failed_targets.add(t)
                         fails.append((t, 'rendered-text-not-executable', f'{q["sql"]!r} renders as {text!r}: {got[1]}'))
                     else:
